@@ -1,6 +1,7 @@
 (* Driver of the extracted Waiter model (coq/Model/Waiter.v) for property C04.
 
    case:  w <sleep>:<tok|end>[:c|:k<ms>] ...     |     eng <discard> <tok,...> <dur,...>
+          pool <discard> <perinst> <starts> <m:offs|p:segs> <durs/...>   (Model/WaiterPool.v run_pool)
    obs:   one field per token, booleans only (see harness/cmd/hC04/main.go)
 
    The model is run on the PLANNED timeline of the case (idealised clock: a reading equals the
@@ -191,6 +192,57 @@ let predict (c : string) (obs : string) : string * string * bool =
                       else if f.[0] = 'D' then "BAD:prof:discarded-although-less-than-2s-late" else "BAD:prof:fired-although-2s-late"
         end in
       (String.concat " " pred, v, tails <> [] || List.exists (fun f -> f.[2] = '1') toks_obs)
+  | [ "pool"; d; pi; starts; sched; durs ] ->
+      let discard = (d = "1") and perinst = (pi = "1") in
+      let starts_l = csv_ms starts in
+      let n = List.length starts_l in
+      let body = String.sub sched 2 (String.length sched - 2) in
+      let offs = if String.sub sched 0 2 = "m:" then csv_ms body
+                 else fst (profile_offsets (z_of_int 0) (segments_of body)) in
+      let durs_l = if durs = "-" then [] else List.map csv_ms (String.split_on_char '/' durs) in
+      let p = { p_discard = discard; p_per_instance = perinst } in
+      let shots = run_pool wcurrent p starts_l offs durs_l in
+      let nd = List.length (List.filter (fun (_, s) -> s.s_dec = Discard) shots) in
+      let ntok = List.length offs in
+      let pred =
+        List.map (fun (k, s) ->
+          Printf.sprintf "%d:%s%s%s%s" (int_of_nat k) (match s.s_dec with Fire -> "F" | Discard -> "D")
+            (bit (zle s.s_tok s.s_entry)) (bit (zle max_overdue (zsub s.s_pickup s.s_tok)))
+            (bit (zle max_overdue (zsub s.s_entry s.s_tok)))) shots
+        @ [ Printf.sprintf "R=%d" nd; "X=0"; Printf.sprintf "S=%d" (int_of_nat (schedules_built p (nat_of_int n))) ] in
+      (* the verdict: the specification on the observation *)
+      let is_tok f = (match String.index_opt f ':' with
+        | Some i -> String.length f = i + 5 && (try ignore (int_of_string (String.sub f 0 i)); true with _ -> false)
+        | None -> false) in
+      let toks_obs = List.filter is_tok ofs in
+      let inst_of f = int_of_string (String.sub f 0 (String.index f ':')) in
+      let ch f j = f.[String.index f ':' + 1 + j] in
+      let get k = (match List.find_opt (fun f -> String.length f > 2 && String.sub f 0 2 = k ^ "=") ofs with
+                   | Some f -> (try int_of_string (String.sub f 2 (String.length f - 2)) with _ -> -1) | None -> -1) in
+      let count_inst k = List.length (List.filter (fun f -> inst_of f = k) toks_obs) in
+      let nobs_d = List.length (List.filter (fun f -> ch f 0 = 'D') toks_obs) in
+      let per_token f =
+        let fate = ch f 0 and g j = ch f j = '1' in
+        if fate = 'L' then Some "BAD:pool:token-neither-fired-nor-reported-as-discarded"
+        else if fate <> 'F' && fate <> 'D' then Some "BAD:pool:malformed-observation"
+        else if not (g 1) then Some "BAD:pool:shot-before-the-token-time"
+        else if not discard then
+          (if spec_decision_b false (g 2) (fate = 'D') then None else Some "BAD:pool:discarded-with-discard_overflow-off")
+        else if not (spec_token_b true true (fate = 'D') (g 1) (g 2) (g 3)) then
+          Some (if fate = 'D' then "BAD:pool:discarded-although-less-than-2s-late" else "BAD:pool:fired-although-2s-late")
+        else None in
+      let v =
+        if List.mem "run-error" ofs then "BAD:pool:run-error"
+        else match List.find_map per_token toks_obs with
+        | Some bad -> bad ^ (if perinst then "(own-schedules)" else "(shared-schedule)")
+        | None ->
+          if get "X" <> 0 || get "R" <> nobs_d then "BAD:pool:discarded-token-not-reported-as-777-discarded"
+          else if get "S" <> int_of_nat (schedules_built p (nat_of_int n)) then "BAD:pool:schedules-built-differ-from-rps-per-instance"
+          else if (perinst && (List.exists (fun k -> count_inst k <> ntok) (List.init n (fun k -> k)) || List.length toks_obs <> n * ntok))
+                  || ((not perinst) && List.length toks_obs <> ntok) then
+            "BAD:pool:tokens-handled-differ-from-the-tokens-of-the-schedule"
+          else "ok" in
+      (String.concat " " pred, v, n > 1 || List.exists (fun f -> ch f 2 = '1' || ch f 0 = 'D') toks_obs)
   | [ "eng"; d; toks; durs ] ->
       let discard = (d = "1") in
       let tl = csv_ms toks in
